@@ -77,8 +77,14 @@ def scenario(rng, nops, ndocs):
     npub = {}
     big = rng.random() < .3
     filler = "".join("proc filler%d(a: int, ref b: int) {\n    var c: int;\n    c := a * %d + b;\n    if (c < a) {\n        b := c;\n    } else {\n        b := a;\n    }\n}\n\n" % (j, j) for j in range(rng.choice([100, 250]))) if big else ""
+    storm = 0; storm_uri = None
     for i in range(nops):
         u = rng.choice(uris); c = rng.random()
+        if storm == 0 and rng.random() < .01:
+            storm = rng.choice([40, 80, 150]); storm_uri = u      # a run of consecutive changes to one document, longer than the channel capacities
+        if storm > 0:
+            storm -= 1; u = storm_uri; c = .1 if docs.get(u) is not None else .2
+            if storm == 0: c = .99 if docs.get(u) is None else .9  # ... followed by a read of that document
         cur = docs.get(u)
         if cur is None:
             if c < .7:
@@ -169,12 +175,20 @@ def run_history(part, binpath, rng, nops, sc_seed):
         ops = ops + [sync]; d.write(to_message(sync))
         d.write({"jsonrpc": "2.0", "id": last_id, "method": "shutdown"})
         reads = [op for op in ops if op["op"] == "read"]
-        deadline = time.monotonic() + 120
+        deadline = time.monotonic() + 240
         stall_until = 0; alive = True
         done = lambda: any(m.get("id") == last_id and "method" not in m for m in d.msgs)
+        last_progress = time.monotonic(); seen = 0
         while alive and not done():
+            if len(d.msgs) != seen or d.out: seen = len(d.msgs); last_progress = time.monotonic()
+            if time.monotonic() - last_progress > 20 and not d.out:
+                # everything is written, nothing has arrived for 20 s: silent server or merely slow?
+                from .c18 import proc_quiescent
+                if proc_quiescent(d.p.pid):
+                    part.fail("%s: the server went silent: %d request(s) unanswered, nothing received for 20 s, all its threads sleeping and no CPU time consumed" % (what, d.inflight()), sc); return
+                last_progress = time.monotonic()
             if time.monotonic() > deadline:
-                part["inconclusive"].append("%s: history not finished after 120 s" % what); return
+                part["inconclusive"].append("%s: history not finished after 240 s" % what); return
             now = time.monotonic()
             if schedule == "burst": allow = (not d.out) or d.blocked_writes > 3          # read only once everything is written or the pipes are full
             elif schedule == "stalls":
@@ -281,7 +295,7 @@ def worker(args):
 
 def run(ctx):
     server_bin("rel")
-    nh, nops = (4, 250) if ctx.quick else (150, 500)
+    nh, nops = (4, 250) if ctx.quick else (60, 500)
     for p in pmap(worker, [("%s/%d" % (ctx.seed, i), nh, nops, "rel") for i in range(NCPU)]): ctx.merge(p)
     if not ctx.quick:
         server_bin("tsan"); before = ctx.extra.get("counters", {}).get("histories", 0)
